@@ -5,27 +5,28 @@
 EXTENDS UsmDefs
 
 \* ------------------------------------------------------------------ state machine: one exchange
-VARIABLES level, rtype, ctx, len127, api, pc, req, verdict, msg, outcome
-vars == <<level, rtype, ctx, len127, api, pc, req, verdict, msg, outcome>>
+VARIABLES level, rtype, ctx, len127, api, avbs, pc, req, verdict, msg, outcome
+vars == <<level, rtype, ctx, len127, api, avbs, pc, req, verdict, msg, outcome>>
 Disco == [engine |-> "E", boots |-> 3, time |-> 1000]
 Pending == [kind |-> "pending", type |-> "-", vbs |-> "-"]
 
 Init == /\ level \in Levels /\ rtype \in ReqTypes /\ ctx \in {"", "C"} /\ len127 \in BOOLEAN
+        /\ avbs \in {"good", "usmStats"}      \* what the authentic response carries: any objects, or the usmStats counters themselves
         /\ api \in (IF rtype \in {"GetNext", "GetBulk"} THEN Apis ELSE {"single"})      \* walks are made of GETNEXT / GETBULK exchanges
         /\ pc = "encode" /\ req = <<>> /\ verdict = "-" /\ msg = <<>> /\ outcome = Pending
 Encode == /\ pc = "encode" /\ req' = Request(level, rtype, Disco, ctx) /\ pc' = "agent"
-          /\ UNCHANGED <<level, rtype, ctx, len127, api, verdict, msg, outcome>>
+          /\ UNCHANGED <<level, rtype, ctx, len127, api, avbs, verdict, msg, outcome>>
 AgentStep == /\ pc = "agent" /\ verdict' = AgentVerdict(level, req, "E", 3, 1000) /\ pc' = "wire"
-             /\ UNCHANGED <<level, rtype, ctx, len127, api, req, msg, outcome>>
+             /\ UNCHANGED <<level, rtype, ctx, len127, api, avbs, req, msg, outcome>>
 \* the network hands the client either the authentic response or anything the attacker can build from it
 Deliver == /\ pc = "wire"
            /\ IF Attack /\ level # "noauth"
-              THEN \E m \in AttackerMsgs(Authentic(level, len127)) : CanSend(Authentic(level, len127), m) /\ msg' = m
-              ELSE msg' = Authentic(level, len127)
+              THEN \E m \in AttackerMsgs(AuthenticV(level, len127, avbs)) : CanSend(AuthenticV(level, len127, avbs), m) /\ msg' = m
+              ELSE msg' = AuthenticV(level, len127, avbs)
            /\ pc' = "decode"
-           /\ UNCHANGED <<level, rtype, ctx, len127, api, req, verdict, outcome>>
+           /\ UNCHANGED <<level, rtype, ctx, len127, api, avbs, req, verdict, outcome>>
 Decode == /\ pc = "decode" /\ outcome' = Caller(api, Process(level, msg)) /\ pc' = "done"
-          /\ UNCHANGED <<level, rtype, ctx, len127, api, req, verdict, msg>>
+          /\ UNCHANGED <<level, rtype, ctx, len127, api, avbs, req, verdict, msg>>
 Done == pc = "done" /\ UNCHANGED vars
 Next == Encode \/ AgentStep \/ Deliver \/ Decode \/ Done
 Spec == Init /\ [][Next]_vars
@@ -37,10 +38,10 @@ FlagsExact == pc # "encode" => /\ req.flags.auth = HasAuth(level) /\ req.flags.p
                                 /\ req.flags.rep = (rtype \in Confirmed)
 SecParamsFromDiscovery == pc # "encode" => (req.sec = [engine |-> "E", boots |-> 3, time |-> 1000, user |-> "u"]
                                             /\ req.ctxEngine = IF ctx = "" THEN "E" ELSE ctx)
-AuthenticAccepted == (pc = "done" /\ msg = Authentic(level, len127)) => outcome = [kind |-> "result", type |-> "Response", vbs |-> "good"]
+AuthenticAccepted == (pc = "done" /\ msg = AuthenticV(level, len127, avbs)) => outcome = [kind |-> "result", type |-> "Response", vbs |-> avbs]
 \* C11: with privacy credentials the scoped PDU only travels as ciphertext under the localised privacy key
 NeverPlain == pc # "encode" => (HasPriv(level) <=> (req.data.form = "enc" /\ req.data.key = <<"Kp", "E">> /\ req.data.salt # ""))
 \* C09: whatever the attacker sends, the caller gets an exception or exactly the authentic result; Reports only surface as errors
-NoForgery == (HasAuth(level) /\ outcome.kind = "result") => outcome.vbs = "good"
+NoForgery == (HasAuth(level) /\ outcome.kind = "result") => outcome.vbs = avbs
 ReportIsError == outcome.kind = "result" => outcome.type # "Report"
 ====
